@@ -173,7 +173,8 @@ def form_stream(res, rng, n):
 
         def g(X, c0=c0, b=b, Q=Q):
             X = np.array(X, dtype=float)
-            calls.append(X.copy())
+            if not calls or not np.array_equal(calls[-1], X):      # (an implementation may evaluate g more than once at a point)
+                calls.append(X.copy())
             return c0 + float(b @ X) + float(X @ Q @ X)
         dg = [(lambda X, k=k, b=b, Q=Q: float(b[k] + ((Q + Q.T) @ np.array(X, dtype=float))[k])) for k in range(d)]
         case = {'kinds': kinds, 'p1': p1, 'p2': p2, 'corr': R.tolist(), 'c0': c0, 'b': b.tolist(), 'Q': Q.tolist(), 'tol': tol, 'iter': iters}
